@@ -831,3 +831,38 @@ def key_docs():
     out += [(('\U0001d11e', '1'), ('k', (('\U00010000', 's'), ('\U0010ffff', [(('\u2028', '1'),), (('\u2028', '1'), ('\U0001f600', 't'))])))),
             [(('\U0001f600', '1'),), (('\U0001f600', '1'), ('\u00e9', 's'))]]
     return out
+
+
+# ------------------------------------------------------------------ numeric constants in the code under test
+# one left-to-right pass over raw strings, strings, char literals (not lifetimes) and comments
+_RUST_LITERALS = re.compile(
+    r'''(?<!\w)r(#*)".*?"\1'''          # raw string
+    r'''|"(?:[^"\\]|\\.)*"'''           # string
+    r"""|'(?:[^'\\\n]|\\[^'\n]*)'"""    # char literal
+    r'''|//[^\n]*|/\*.*?\*/''',         # comments
+    re.S)
+
+def source_constants(root="/repo"):
+    """numeric literals >= 2 in the non-test library sources (comments, strings, `#[cfg(test)]` tails and the
+    hooks module excluded).  A threshold in the code is exactly what small random inputs never reach; the
+    scale stream (scale_families, genlib.good_family, textlib big inputs) is built to straddle the constants
+    listed in tools/known_constants.json, and every check reports any constant that is not on that list."""
+    out = set()
+    for base in ("json_shape/src", "json_shape_build/src"):
+        for dp, _, fn in os.walk(os.path.join(root, base)):
+            if "/test" in dp:
+                continue
+            for f in fn:
+                if not f.endswith(".rs") or f == "verif_hooks.rs":
+                    continue
+                src = re.split(r"#\[cfg\(test\)\]\s*(?:pub\s+)?mod\s+\w+\s*\{", open(os.path.join(dp, f), errors="replace").read())[0]
+                src = _RUST_LITERALS.sub(" ", src)
+                for m in re.finditer(r"(?<![\w.'{])(\d[\d_]*)(?:usize|u8|u16|u32|u64|i32|i64)?(?![\w.])", src):
+                    v = int(m.group(1).replace("_", ""))
+                    if v >= 2:
+                        out.add("%s:%d" % (os.path.relpath(os.path.join(dp, f), root), v))
+    return sorted(out)
+
+def new_source_constants():
+    known = set(json.load(open(os.path.join(ROOT, "tools", "known_constants.json")))["constants"])
+    return [c for c in source_constants() if c not in known]
